@@ -27,6 +27,8 @@ type Env struct {
 	resultTypes []types.Type
 	bound       map[string]envVar
 	depth       int
+	paramsAtEntry bool                 // in ensures: parameter names denote entry values, other locals their final values
+	fvOverride  map[string]freeVarInfo // free variables of a callee closure, bound at a call / go site
 	facts       *[]*Term // type facts of every heap value read while evaluating (always true of a well-typed heap)
 }
 
@@ -37,6 +39,15 @@ func (e *Env) addFact(v *Term, t types.Type) {
 	f := e.u.typeFacts(v, t)
 	if f.S != "true" {
 		*e.facts = append(*e.facts, f)
+	}
+	// everything read from memory was allocated before "now" of the state it is read in
+	switch v.Sort {
+	case SPtr:
+		*e.facts = append(*e.facts, Lt(App(SInt, "birth", parr(v)), e.st.now))
+	case SSlice:
+		*e.facts = append(*e.facts, Lt(App(SInt, "birth", sarr(v)), e.st.now))
+	case SRef:
+		*e.facts = append(*e.facts, Lt(App(SInt, "birth", v), e.st.now))
 	}
 }
 
@@ -50,6 +61,9 @@ func (u *Unit) evalBoolF(env *Env, st *State, x Expr) *Term {
 	u.assume(st, And(facts...))
 	return t
 }
+
+// ghostPtr: the location of every ghost global variable (one map per variable).
+var ghostPtr = &Term{"(mkptr nilref 0)", SPtr}
 
 type tv struct {
 	v Val
@@ -116,6 +130,13 @@ func (e *Env) lookupLocal(name string) (tv, bool) {
 	fr := e.fr
 	if fr == nil {
 		return tv{}, false
+	}
+	if e.paramsAtEntry {
+		for _, p := range fr.fn.Params {
+			if p.Name() == name {
+				return tv{}, false
+			}
+		}
 	}
 	var cands []*ssa.Alloc
 	for _, a := range fr.fn.Locals {
@@ -293,6 +314,9 @@ func (e *Env) ident(name string) tv {
 	if v, ok := e.vars[name]; ok {
 		return tv{v.v, v.t}
 	}
+	if p, t, ok := e.freeVar(name); ok {
+		return tv{u.loadCell(e, t, p), t}
+	}
 	// package-level constant / variable
 	if obj := u.lookupPkgObj(e.pkgPath, name); obj != nil {
 		switch o := obj.(type) {
@@ -307,12 +331,50 @@ func (e *Env) ident(name string) tv {
 			}
 		}
 	}
+	if g, ok := u.prog.specs.GhostVars[name]; ok {
+		gt, gs := u.resolveType(g.GoType, g.PkgPath)
+		return tv{u.loadLoc(e.st, "G!"+name, gs, ghostPtr), gt}
+	}
 	// nullary spec function
 	if sf, ok := u.prog.specs.SpecFns[name]; ok && len(sf.Params) == 0 {
 		return e.specCall(sf, nil)
 	}
 	e.fail("unknown name %q", name)
 	return tv{}
+}
+
+// freeVar: a variable captured by the closure being verified / inlined; its
+// value lives in a heap cell shared with the enclosing function.
+func (e *Env) freeVar(name string) (*Term, types.Type, bool) {
+	if e.fvOverride != nil {
+		if fi, ok := e.fvOverride[name]; ok {
+			return fi.p, fi.t, true
+		}
+		return nil, nil, false
+	}
+	for fr := e.fr; fr != nil; fr = nil {
+		for i, fv := range fr.fn.FreeVars {
+			if fv.Name() == name && i < len(fr.freeVars) {
+				if p, ok := fr.freeVars[i].(*Term); ok {
+					return p, ptrElem(fv.Type()), true
+				}
+			}
+		}
+	}
+	if fi, ok := e.u.freeVarPtrs[name]; ok {
+		return fi.p, fi.t, true
+	}
+	return nil, nil, false
+}
+
+func (u *Unit) loadCell(e *Env, t types.Type, p *Term) Val {
+	if _, isS := u.structOf(t); isS {
+		return u.loadVal(e.st, t, p)
+	}
+	sort, _ := u.sortOf(t)
+	v := u.loadLoc(e.st, elemMapName(sort), sort, p)
+	e.addFact(v, t)
+	return v
 }
 
 func (e *Env) resultType(k int) types.Type {
@@ -691,6 +753,15 @@ func (e *Env) callExpr(x *ECall) tv {
 			return tv{u.convert(e.st, t, r.t0(), bt).(*Term), bt}
 			_ = want
 		}
+	case "upd":
+		// upd(a, i, v): the array a with a[i] := v (ghost arrays)
+		a := u.evalTerm(e, x.Args[0])
+		i := u.evalTerm(e, x.Args[1])
+		v := u.evalTerm(e, x.Args[2])
+		if !strings.HasPrefix(string(a.Sort), "(Array ") {
+			e.fail("upd: array expected")
+		}
+		return tv{Store(a, i, v), nil}
 	case "abs":
 		t := u.evalTerm(e, x.Args[0])
 		return tv{Ite(Ge(t, zeroLike(t)), t, Neg(t)), nil}
@@ -1048,6 +1119,25 @@ func (p *Program) pkgByName(pkgPath, name string) *types.Package {
 
 func (u *Unit) evalLoc(env *Env, x Expr, src string) []frameItem {
 	switch x := x.(type) {
+	case *EIdent:
+		if x.Name == "allocated" {
+			// every object allocated since the unit was entered (loop frames only)
+			return []frameItem{{Map: "*allocated*", Src: src}}
+		}
+		if g, ok := u.prog.specs.GhostVars[x.Name]; ok {
+			_, gs := u.resolveType(g.GoType, g.PkgPath)
+			u.heapGet(env.st, "G!"+x.Name, gs)
+			return []frameItem{{Map: "G!" + x.Name, Elem: gs, Ptr: ghostPtr, Src: src}}
+		}
+		if p, t, ok := env.freeVar(x.Name); ok {
+			if _, isS := u.structOf(t); isS {
+				return u.structItems(env, t, p, src)
+			}
+			sort, _ := u.sortOf(t)
+			u.heapGet(env.st, elemMapName(sort), sort)
+			return []frameItem{{Map: elemMapName(sort), Elem: sort, Ptr: p, Src: src}}
+		}
+		env.fail("modifies %s: not a captured variable", src)
 	case *ECall:
 		switch x.Fn {
 		case "elems":
